@@ -200,7 +200,9 @@ PROPS["C02"] = {
     "harnesses": [
         {"pkg": ".", "dir": "s3db", "entry": "VerifH_C02_history",
          "quick": {"params": "stmts=3,writers=2", "workers": 16, "timeout": 1200},
-         "thorough": {"params": "stmts=4,writers=2", "workers": 16, "timeout": 7200}},
+         "thorough": {"params": "stmts=4,writers=2,firstins=1,nulls=0", "workers": 16, "timeout": 5400}},
+        {"pkg": ".", "dir": "s3db", "entry": "VerifH_C02_history", "tag": "-three-writers", "thorough_only": True,
+         "quick": {"params": "stmts=3,writers=3,merger=1,quiesce=0,nulls=0,own=1,firstins=1,extra=0", "workers": 16, "timeout": 3600}},
         {"pkg": ".", "dir": "s3db", "entry": "VerifH_C02_history", "tag": "-upd-upd-del",
          "quick": {"params": "stmts=4,writers=2,shape=1,nulls=0", "workers": 16, "timeout": 1200}},
         {"pkg": ".", "dir": "s3db", "entry": "VerifH_C02_history", "tag": "-ins-ins-upd-del",
@@ -212,7 +214,7 @@ PROPS["C02"] = {
         {"pkg": ".", "dir": "s3db", "entry": "VerifH_selfcheck_mergerows", "quick": {"workers": 1, "timeout": 300, "validate": 4}},
     ],
     "bounds": {"quick": "the repository's own MergeRows/toSQLiteValue/sort-order unit-test cases with the clock symbolic (translator validation); one key, two non-key columns, 3 statements (kind, assigned columns, write time and values symbolic; distinct write times), 2 writers, one optional commit+refresh point, every merge order at the final open",
-               "thorough": "4 statements"},
+               "thorough": "4 symbolic statements of which the first is an INSERT (no NULL values), 2 writers; 3 statements over 3 writers with third-party merges"},
     "outside": "more than 2 columns, more than 4 statements per key",
     "assumptions": [TIME_RANGE, "SQLite passes every column to xUpdate on INSERT; UPDATE/DELETE reach the table only for rows visible to the connection"],
 }
@@ -221,13 +223,13 @@ PROPS["C01"] = {
     "harnesses": [
         {"pkg": ".", "dir": "s3db", "entry": "VerifH_C02_history",
          "quick": {"params": "stmts=3,writers=3,merger=1,quiesce=0,nulls=0,own=1,firstins=1,extra=0", "workers": 16, "timeout": 1800},
-         "thorough": {"params": "stmts=4,writers=2,merger=1,quiesce=0,nulls=0,own=1,firstins=1", "workers": 16, "timeout": 14000}},
+         "thorough": {"params": "stmts=3,writers=3,merger=1,quiesce=0,nulls=1,own=1,firstins=1,extra=1", "workers": 16, "timeout": 7200}},
         {"pkg": ".", "dir": "s3db", "entry": "VerifH_C02_history", "tag": "-quiescence",
          "quick": {"params": "stmts=2,writers=3,merger=1,quiesce=1,nulls=0,own=0,firstins=1", "workers": 16, "timeout": 1800},
-         "thorough": {"params": "stmts=3,writers=3,merger=1,quiesce=1,nulls=0,own=1,firstins=1", "workers": 16, "timeout": 14000}},
+         "thorough": {"params": "stmts=3,writers=2,merger=1,quiesce=1,nulls=0,own=0,firstins=1", "workers": 16, "timeout": 7200}},
     ],
     "bounds": {"quick": "one key, 3 symbolic statements over 3 writers that started from the same table; one optional intermediate point where either everybody commits and refreshes or a third party merges the current versions into an intermediate version; every permutation of the version list at every open (symbolic shuffle); then a merging open and a quiescent re-open",
-               "thorough": "4 statements"},
+               "thorough": "the same with NULL values and a bystander row that only one writer touches; quiescence after 3 statements over 2 writers"},
     "outside": "more than one key per history (tree-level diff is exercised by C16/C17), more than 4 statements",
     "assumptions": [TIME_RANGE, "distinct write times on the row (the property's precondition)", "the expected row is the documented outcome (C02's oracle), so equal results for all merge orders and groupings follow from equality with it"],
 }
